@@ -222,6 +222,7 @@ fn load_honest(t: &Target, k: &Key, rt: &tokio::runtime::Runtime) -> Message {
 fn main() {
     // a stack overflow / abort in the code under test must become a verdict, not a dead check
     vcore::supervise("C07");
+    vcore::install_log_evaluation(); // logging is part of the environment: log arguments are evaluated as under a real subscriber
     let ctx = Ctx::from_args("C07", "fault_enumeration");
     let thorough = !ctx.quick();
     let rt = vsim::rt();
